@@ -293,6 +293,19 @@ class Repo:
         if _depth > 8:
             return ("ext", name)
         head, _, rest = name.partition(".")
+        # a submodule of a package, reached as an attribute of the package
+        sub = f"{mod.name}.{head}"
+        if (
+            sub in self.modules
+            and self._is_package(mod)
+            and head not in mod.classes
+            and head not in mod.functions
+            and head not in mod.assigns
+            and head not in mod.imports
+        ):
+            if not rest:
+                return ("module", self.modules[sub])
+            return self.resolve_global(self.modules[sub], rest, _depth + 1)
         if head in mod.classes:
             cls = mod.classes[head]
             if not rest:
